@@ -41,7 +41,7 @@ Definition lookup (cls mem : string) : option (string * Q) :=
   | Some (_, _, l, v) => Some (l, v)
   | None => None
   end.
-Definition word := (string * Q)%type.
+Notation word := (string * Q)%type (only parsing).
 Definition instr (cls mem : string) : word :=
   match lookup cls mem with Some w => w | None => ("?", 0%Q) end.
 
@@ -165,7 +165,7 @@ Definition init : st :=
        false false NInf NInf NInf.
 
 Inductive err := ValueErr | ToolStateErr | CoolantStateErr | KeyErr | IndexErr.
-Definition line := list word.
+Notation line := (list (string * Q)) (only parsing).
 Inductive hookcall := HookCall (id : nat) (origin target : point).
 (* result of a call: new state, emitted lines, hook invocations, exception *)
 Definition res := (st * list line * list hookcall * option err)%type.
